@@ -125,7 +125,10 @@ func (vc *VC) execBlocks(fn *ssa.Function, st0 *State, _ interface{}) []retRec {
 		}
 	}
 	if isTop {
-		for _, li := range vc.loopList {
+		// inner loops first, so that "unchanged since the header" facts compose outwards
+		byDepth := append([]*LoopInfo(nil), vc.loopList...)
+		sort.SliceStable(byDepth, func(i, j int) bool { return len(byDepth[i].Body) < len(byDepth[j].Body) })
+		for _, li := range byDepth {
 			vc.closeLoop(li)
 		}
 	}
@@ -172,7 +175,7 @@ func (vc *VC) funcEnv(st *State, pos token.Pos) *Env {
 // enterLoop: check the invariant on entry, havoc what the loop may change, assume the invariant.
 func (vc *VC) enterLoop(li *LoopInfo, pre *State) *State {
 	li.pre = pre.clone()
-	env := vc.funcEnv(pre, li.Pos)
+	env := vc.funcEnv(pre, li.Scope)
 	vc.bindIter(env, li, pre)
 	for _, cl := range vc.Con.OfLoop("let", li.Ordinal) {
 		// loop-entry snapshot: name = value of the expression just before the loop is entered
@@ -214,6 +217,9 @@ func (vc *VC) enterLoop(li *LoopInfo, pre *State) *State {
 		h.heap[n] = c
 	}
 	al := vc.fresh("alloc", "Int")
+	for n, c := range li.hdrHeap {
+		vc.refBound(n, c, al)
+	}
 	h.alloc = al
 	h.assume(vc, Ge(al, pre.alloc))
 	for _, a := range sortedAllocs(li.hdrLocal) {
@@ -223,10 +229,18 @@ func (vc *VC) enterLoop(li *LoopInfo, pre *State) *State {
 		// the hidden range index starts at -1 and only ever grows by one per iteration
 		if v, ok := h.locals[li.rangeIdx]; ok {
 			h.assume(vc, Le("(- 1)", v.S))
+			// and it never passes the length evaluated before the loop: the header compares index+1 against it
+			for _, in := range li.Header.Instrs {
+				if bo, ok := in.(*ssa.BinOp); ok && bo.Op == token.LSS {
+					if lv, ok := vc.vals[bo.Y]; ok && lv.K == KInt {
+						h.assume(vc, Or(Lt(v.S, lv.S), Eq(v.S, "(- 1)")))
+					}
+				}
+			}
 		}
 	}
 	li.hdr = h.clone()
-	env2 := vc.funcEnv(h, li.Pos)
+	env2 := vc.funcEnv(h, li.Scope)
 	vc.bindIter(env2, li, h)
 	for _, cl := range invs {
 		h.assume(vc, vc.specBool(env2, cl))
@@ -256,7 +270,7 @@ func (vc *VC) closeLoop(li *LoopInfo) {
 	}
 	invs := vc.Con.OfLoop("invariant", li.Ordinal)
 	for bi, bs := range li.backSts {
-		env := vc.funcEnv(bs, li.Pos)
+		env := vc.funcEnv(bs, li.Scope)
 		vc.bindIter(env, li, bs)
 		sfx := ""
 		if len(li.backSts) > 1 {
@@ -423,10 +437,14 @@ func (vc *VC) runOnce() {
 	st.alloc = "alloc0"
 	vc.entryAlloc = "alloc0"
 	vc.define(Ge("alloc0", "0"))
+	for n := range pendingRefs {
+		vc.noteRef(n, true)
+	}
 	for _, n := range vc.arrayOrd {
 		init := "H0_" + n
 		vc.declare(init, vc.arrays[n])
 		st.heap[n] = init
+		vc.refBound(n, init, "alloc0")
 	}
 	if _, ok := st.heap["G_allocated"]; ok {
 		vc.define(Eq("H0_G_allocated", "0"))
@@ -666,4 +684,10 @@ func (vc *VC) lemmas(st *State, env *Env) {
 		vc.addObl("lemma", "lemma:"+cl.Name+":step", stepSt, pk1, vc.Fn.Pos(), cl.Tags, cl.Text)
 		st.assume(vc, whole)
 	}
+}
+
+// funcEnvAt: environment for clauses evaluated in the middle of the function: parameters by their current cell values,
+// old() = function entry.
+func (vc *VC) funcEnvAt(st *State, pos token.Pos) *Env {
+	return vc.funcEnv(st, pos)
 }
